@@ -5,7 +5,7 @@ from props import taskworld, chanworld
 
 PATS = ("C03", "declared-length-sane", "head-sent", "length-counter", "empty-write", "written-nonneg", "counter-zero", "head-only", "nothing-counted",
         "build_response_header/cut", "coverage:", "frame:", "WSGITask.execute/cut", "has_body", "version-is", "C06-exact-length", "error-response-closes",
-        "finish/raises", "C06-status-is-an-error-code", "pre:size-nonneg")
+        "finish/raises", "C06-status-is-an-error-code", "pre:size-nonneg", "list-elem-fact:not_cl")
 BUF = ["buffers.ReadOnlyFileBasedBuffer.prepare", "buffers.ReadOnlyFileBasedBuffer.get"]
 
 
